@@ -145,7 +145,7 @@ pub struct Cfg {
 
 impl Default for Cfg {
     fn default() -> Self {
-        Cfg { salt: 0, fuel: 400_000, record_trace: true, memo_aware: false }
+        Cfg { salt: 0, fuel: 120_000, record_trace: true, memo_aware: false }
     }
 }
 
